@@ -902,3 +902,113 @@ func structBase(v ssa.Value) ssa.Value {
 		v = fa.X
 	}
 }
+
+func init() {
+	p := Properties["C03"]
+	p.Rules = append(p.Rules, Rule{"C03/base-uri-used", ruleC03BaseURIUsed})
+}
+
+// The retrieval URI given in ResolveOptions.BaseURI is the base of the root document: it is what the root's
+// $id is resolved against and what the root is registered under. In Resolve, the URI handed to the document
+// resolver for the root is the parsed BaseURI; an empty URL stands in only where BaseURI is the empty string.
+func ruleC03BaseURIUsed(c *Ctx) {
+	const rule = "C03/base-uri-used"
+	m := c.resolverModel(rule)
+	entry := c.entry(rule, "(*Schema).Resolve")
+	if m == nil || entry == nil || m.docFn == nil {
+		return
+	}
+	isURL := func(t types.Type) bool { return isNamed(derefType(t), "net/url", "URL") }
+	var site *ssa.Call
+	var arg ssa.Value
+	c.eachFam(entry, func(i ssa.Instruction) {
+		call, ok := i.(*ssa.Call)
+		if !ok || call.Call.StaticCallee() != m.docFn {
+			return
+		}
+		for _, a := range call.Call.Args {
+			if isURL(a.Type()) && site == nil {
+				site, arg = call, a
+			}
+		}
+	})
+	if site == nil {
+		c.R.Unresolved(rule, "the call of the document resolver for the root in Resolve")
+		return
+	}
+	emptyTested := func(at ssa.Instruction) bool {
+		for _, g := range guardsOf(at) {
+			bo, ok := g.Cond.(*ssa.BinOp)
+			if !ok {
+				continue
+			}
+			for _, pair := range [][2]ssa.Value{{bo.X, bo.Y}, {bo.Y, bo.X}} {
+				if s, isK := constString(pair[1]); isK && s == "" && c.mentionsField(pair[0], "ResolveOptions.BaseURI", 4) {
+					if (bo.Op == token.EQL && g.Pol) || (bo.Op == token.NEQ && !g.Pol) {
+						return true
+					}
+				}
+			}
+		}
+		return false
+	}
+	parsed, n := false, 0
+	var walk func(v ssa.Value, at ssa.Instruction, seen map[ssa.Value]bool)
+	walk = func(v ssa.Value, at ssa.Instruction, seen map[ssa.Value]bool) {
+		if seen[v] {
+			return
+		}
+		seen[v] = true
+		switch x := v.(type) {
+		case *ssa.Phi:
+			for k, e := range x.Edges {
+				pred := x.Block().Preds[k]
+				walk(e, pred.Instrs[len(pred.Instrs)-1], seen)
+			}
+		case *ssa.Extract:
+			call, ok := x.Tuple.(*ssa.Call)
+			if !ok {
+				return
+			}
+			if core.CalleeKey(&call.Call) == "net/url.Parse" {
+				okArg := c.mentionsField(call.Call.Args[0], "ResolveOptions.BaseURI", 4)
+				c.R.Check(okArg, rule, "root-base:parsed-from-BaseURI", c.pos(call), "the root's base is parsed from ResolveOptions.BaseURI", "the URI parsed for the root's base is not ResolveOptions.BaseURI")
+				parsed = parsed || okArg
+				return
+			}
+			if h := call.Call.StaticCallee(); h != nil && c.transparent(h) {
+				core.EachInstr(h, func(j ssa.Instruction) {
+					if ret, ok := j.(*ssa.Return); ok && x.Index < len(ret.Results) {
+						walk(returnedValue(ret, x.Index), ret, seen)
+					}
+				})
+			}
+		case *ssa.Call:
+			if h := x.Call.StaticCallee(); h != nil && c.transparent(h) {
+				core.EachInstr(h, func(j ssa.Instruction) {
+					if ret, ok := j.(*ssa.Return); ok && len(ret.Results) > 0 {
+						walk(returnedValue(ret, 0), ret, seen)
+					}
+				})
+			}
+		case *ssa.Alloc:
+			n++
+			c.R.Check(emptyTested(at), rule, fmt.Sprintf("root-base:empty-url#%d", n), c.pos(at), "an empty URL is the root's base only where BaseURI is the empty string",
+				"an empty URL is used as the base of the root document on a path where ResolveOptions.BaseURI is not known to be empty: the retrieval URI is then neither the base of the root's $id nor registered for the root, so a $ref to the document by its retrieval URI is treated as remote")
+		case *ssa.Const:
+			if x.IsNil() {
+				return
+			}
+		case *ssa.UnOp:
+			if cell := resolveCell(x.X); cell != nil {
+				for _, r := range *cell.Referrers() {
+					if st, ok := r.(*ssa.Store); ok && st.Addr == ssa.Value(cell) {
+						walk(st.Val, st, seen)
+					}
+				}
+			}
+		}
+	}
+	walk(arg, site, map[ssa.Value]bool{})
+	c.R.Check(parsed, rule, "root-base:from-BaseURI", c.pos(site), "the base handed to the document resolver can be the parsed BaseURI", "the base URI handed to the document resolver for the root never comes from ResolveOptions.BaseURI: the option is ignored")
+}
